@@ -16,12 +16,13 @@ RULE = ("type trees (depth <=3 quick / <=5 thorough) of List(item; brackets [] o
         "Seq(symbols | AnyTokenExcept), Choice(word | num | list | map), word / num / nullable-word leaves, embedded as "
         "';'-terminated fields of a record; data of length 0-5 per container with repeated map keys, empty bracket pairs, "
         "absent optionals, empty nullable items; a final delimiter is emitted sometimes when allowed and sometimes when not "
-        "(then ParsingError is expected); rendering with generated blanks, newlines, comments and multi-line comments. "
+        "(then ParsingError is expected); rendering with generated blanks, newlines, comments and multi-line comments; the last "
+        "field optionally at the end of 1-3 levels of ordinary productions, productions declared top-down / bottom-up / shuffled. "
         "Non-trivial = depth >=2 or a non-default option or a container of length >=3; distinct by (schema, data).")
 ASSUMPTIONS = [
     "documented preconditions respected: final delimiter needs brackets+delimiter, optional needs brackets, delimiter-less lists need non-nullable items",
     "uniquely decodable by construction: bracket-less lists only as a whole field (in front of ';') and never directly nested; a list of nullable items that ends with an empty item is rendered with the final delimiter when that is allowed; a lone empty item is never rendered between brackets",
-    "sequence elements are terminals; sequences (which may be empty) are not used as items of lists that allow a final delimiter",
+    "sequence elements are terminals or parenthesised groups '(' SEQ ')' (of a second sequence or of the same one, recursively); of a group element only its tokens in order are judged, not the shape of its sub-tree; sequences (which may be empty) are not used as items of lists that allow a final delimiter",
     "bracket-less maps only as whole fields; keep_symbols on item symbols are not generated",
     "rollback variant: the record may have two alternatives (fields ';'... '+' | LEAD fields ';'... 'do') that share a parse-table cell",
 ]
@@ -79,6 +80,16 @@ class Builder:
             s = self.sym("SEQ")
             if T.get("except") is not None:
                 self.prods[s] = L.ProdSequence(L.AnyTokenExcept(*T["except"]))
+            elif T.get("group"):
+                # a sequence whose elements may be parenthesised groups holding a sequence again
+                g = self.sym("GRP")
+                if T["group"]["recursive"]:
+                    inner = s
+                else:
+                    inner = self.sym("SEQ")
+                    self.prods[inner] = L.ProdSequence(*T["group"]["inner"])
+                self.prods[g] = [("(", inner, ")")]
+                self.prods[s] = L.ProdSequence(*(list(T["syms"]) + [g]))
             else:
                 self.prods[s] = L.ProdSequence(*T["syms"])
             return s
@@ -165,18 +176,41 @@ def emit(T, D, out):
             out.append(("}", "}"))
         return den
     if t == "seq":
-        syms = seq_symbols(T)
-        den = []
-        for si, li in D:
-            term = syms[si % len(syms)]
-            lx = lex_of(term, li)
-            out.append((term, lx))
-            den.append(["tok", term, lx])
-        return den
+        return emit_seq(T, seq_symbols(T), D, out)
     if t == "choice":
         k, d = D
         return emit(T["alts"][k % len(T["alts"])], d, out)
     raise AssertionError(t)
+
+
+def emit_seq(T, syms, D, out):
+    den = []
+    for e in D:
+        if e[0] == "grp":
+            start = len(out)
+            out.append(("(", "("))
+            g = T["group"]
+            emit_seq(T, syms if g["recursive"] else g["inner"], e[1], out)
+            out.append((")", ")"))
+            den.append(["grp", [[n, v] for n, v in out[start:] if n not in ("(", ")")]])
+        else:
+            si, li = e
+            term = syms[si % len(syms)]
+            lx = lex_of(term, li)
+            out.append((term, lx))
+            den.append(["tok", term, lx])
+    return den
+
+
+def plain_leaves(p):
+    """tokens (name, value) of a plain result read left to right, brackets of groups left out"""
+    if isinstance(p, list):
+        if len(p) == 3 and p[0] == "tok" and isinstance(p[1], str) and not isinstance(p[2], (list, dict)):
+            return [] if p[1] in ("(", ")") else [[p[1], p[2]]]
+        if len(p) == 3 and p[0] == "node" and isinstance(p[2], list):
+            return [x for c in p[2] for x in plain_leaves(c)]
+        return [x for c in p for x in plain_leaves(c)]
+    return []
 
 
 def to_plain(x):
@@ -211,7 +245,11 @@ def same(got, exp, T):
             return got is None and exp is None
         return isinstance(got, dict) and list(got) == list(exp) and all(same(got[k], exp[k], T["val"]) for k in exp)
     if t == "seq":
-        return got == exp
+        if not T.get("group"):
+            return got == exp
+        # one entry per matched element in order; a group element holds exactly its tokens in order
+        return isinstance(got, list) and len(got) == len(exp) and all(
+            (g == e) if e[0] == "tok" else (plain_leaves(g) == e[1]) for g, e in zip(got, exp))
     if t == "choice":
         return any(same(got, exp, a) for a in T["alts"])
     return False
@@ -254,6 +292,8 @@ def options(T, acc):
             options(a, acc)
     elif t == "seq":
         acc.add("seq_anyexcept" if T.get("except") is not None else "seq")
+        if T.get("group"):
+            acc.add("seq_with_group_elements")
     elif t == "optword":
         acc.add("nullable_item")
 
@@ -265,6 +305,14 @@ def evaluate(case):
     B = Builder(L)
     try:
         syms = [B.build(T) for T in fields]
+        wrap = case.get("wrap", 0)
+        wrappers = {}
+        for _ in range(wrap):
+            # the last field sits at the end of `wrap` levels of ordinary productions: its follower ';' is only known
+            # through FOLLOW propagation over several symbols
+            w = B.sym("WRAP")
+            wrappers[w] = [("WORD", syms[-1])]
+            syms[-1] = w
         prod = []
         for s in syms:
             prod += [s, ";"]
@@ -275,8 +323,16 @@ def evaluate(case):
             prods = {"E": [tuple(prod + ["+"]), tuple([lead] + prod + ["DO"])]}
         else:
             prods = {"E": [tuple(prod)]}
+        prods.update(wrappers)
         prods.update(B.prods)
-        parser = L.LLParser(gk.TOKENIZER, productions=prods, **tokcfg)
+        decl = case.get("decl")
+        names = list(prods)
+        if decl == "bottomup":
+            names.reverse()
+        elif isinstance(decl, list):
+            names = [n for _, n in sorted(zip((decl * len(names))[:len(names)], names), key=lambda kv: kv[0])]
+        prods = {n: prods[n] for n in names}
+        parser = L.LLParser(gk.TOKENIZER, productions=prods, start_symbol_name="E", **tokcfg)
     except Exception as e:   # noqa
         return Outcome(False, ["constructor_raises"], [("constructor_raises_" + type(e).__name__,
                                                         f"schema={fields!r}: {str(e)[-300:]}")])
@@ -292,7 +348,10 @@ def evaluate(case):
         variant = inst.get("variant", 0) if lead else None
         if variant == 1:
             toks.append((lead, lex_of(lead, inst.get("lead_lex", 0))))
-        for T, D in zip(fields, inst["data"]):
+        for fi, (T, D) in enumerate(zip(fields, inst["data"])):
+            if fi == len(fields) - 1:
+                for wl in range(wrap):
+                    toks.append(("WORD", lex_of("WORD", wl + inst.get("lead_lex", 0))))
             dens.append(emit(T, D, toks))
             toks.append((";", ";"))
         if variant == 0:
@@ -328,8 +387,21 @@ def evaluate(case):
         if not isinstance(vals, list) or len(vals) != 2 * len(fields):
             f.append(("root_shape_unexpected", f"{ctx}: {res!r}"))
             continue
+        if wrap:
+            classes.add("last_field_wrapped_%d" % wrap)
         for i, (T, den) in enumerate(zip(fields, dens)):
             node = vals[2 * i]
+            if i == len(fields) - 1:
+                bad_shape = False
+                for _ in range(wrap):
+                    kids = getattr(node, "value", None)
+                    if not isinstance(kids, list) or len(kids) != 2:
+                        bad_shape = True
+                        break
+                    node = kids[1]
+                if bad_shape:
+                    f.append(("wrapper_shape_unexpected", f"{ctx}: {res!r}"))
+                    continue
             got = to_plain(node)
             if T["t"] in ("list", "map") and den is None:
                 ok = getattr(node, "value", 0) is None
@@ -397,6 +469,9 @@ def st_type(draw, depth_left, ctx):
         if draw(st.integers(0, 3)) == 0:
             # everything except the tokens that delimit the context
             return {"t": "seq", "except": [",", ";", "]", ")", "}", "[", "(", "{", ":", "COMMENT", "SPACE"]}
+        if ctx in ("field", "value") and draw(st.integers(0, 2)) == 0:
+            sub = st.lists(st.sampled_from(["WORD", "NUM", "+"]), min_size=1, max_size=3, unique=True)
+            return {"t": "seq", "syms": draw(sub), "group": {"recursive": draw(st.booleans()), "inner": draw(sub)}}
         return {"t": "seq", "syms": draw(st.lists(st.sampled_from(["WORD", "NUM", "+", "IF", "DO"]), min_size=1, max_size=3,
                                                    unique=True))}
     if k == "choice":
@@ -500,7 +575,14 @@ def st_data(draw, T, flags, allow_absent):
         return draw(st.none() | st.integers(0, 7))
     if t == "seq":
         lo = 1 if flags.get("_item") else 0    # as a list item a sequence is never empty (a lone empty item is not rendered)
-        return [[draw(st.integers(0, 5)), draw(st.integers(0, 7))] for _ in range(draw(st.integers(lo, 4)))]
+        tok = st.tuples(st.integers(0, 5), st.integers(0, 7)).map(list)
+        if T.get("group"):
+            inner = st.lists(tok, max_size=4)
+            if T["group"]["recursive"]:
+                inner = st.lists(tok | st.lists(tok, max_size=3).map(lambda x: ["grp", x]), max_size=4)
+            elem = st.one_of(tok, tok, inner.map(lambda x: ["grp", x]))
+            return draw(st.lists(elem, min_size=lo, max_size=4))
+        return [draw(tok) for _ in range(draw(st.integers(lo, 4)))]
     if t == "choice":
         k = draw(st.integers(0, len(T["alts"]) - 1))
         return [k, draw(st_data(T["alts"][k], flags, False))]
@@ -570,7 +652,9 @@ def st_case(draw, maxdepth=3):
                           "has_final": bool(flags.get("final")), "variant": draw(st.integers(0, 1)),
                           "lead_lex": draw(st.integers(0, 7))})
     lead = draw(st.sampled_from([None, None, "WORD", "NUM"]))
-    return {"fields": fields, "instances": instances, "lead": lead}
+    return {"fields": fields, "instances": instances, "lead": lead, "wrap": draw(st.sampled_from([0, 0, 1, 2, 3])),
+            "decl": draw(st.sampled_from([None, "bottomup", "shuffle"]).flatmap(
+                lambda d: st.lists(st.integers(0, 9), min_size=7, max_size=7) if d == "shuffle" else st.just(d)))}
 
 
 def parts(tier):
